@@ -198,7 +198,10 @@ class Script:
     wrapped = self.c.get("hstyle", "fn") == "wrapped"
     for i in range(1, self.n + 1):
       self.raw[i] = make(i)
-      self.fn[i] = spy_on(self.raw[i]) if spied else (counted(self.raw[i]) if wrapped else self.raw[i])
+      # (chart['spied_states']: a partially decorated chart - only the listed states carry the spy decorator)
+      part = self.c.get("spied_states")
+      dec = spied and (not part or part[i - 1])
+      self.fn[i] = spy_on(self.raw[i]) if dec else (counted(self.raw[i]) if wrapped else self.raw[i])
 
   def build_bound(self, spied):
     """state handlers that are methods of a helper object (signature (self, chart, e)): every mention of a state
@@ -338,12 +341,23 @@ class Script:
     else:
       for i in gen_states:
         self.fn[i] = self.raw[i] = state_method_template("s%d" % i)
-      for (i, sg), cb in sorted(cbs.items()):
-        if i not in hand:
-          hsm.register_signal_callback(self.fn[i], getattr(signals, sg), cb)
+      items = [((i, sg), cb) for (i, sg), cb in sorted(cbs.items()) if i not in hand]
+      half = len(items) // 2 if self.c.get("early_code") else len(items)
+      for (i, sg), cb in items[:half]:
+        hsm.register_signal_callback(self.fn[i], getattr(signals, sg), cb)
       for i in gen_states:
         p = self.c["par"][i - 1]
         hsm.register_parent(self.fn[i], self.fn[p] if p else hsm.top)
+      if self.c.get("early_code"):
+        # the text of every state is asked for while the chart is still being assembled (a tool that shows the chart as it grows);
+        # the text asked for once the chart is complete must describe the complete chart
+        for i in gen_states:
+          try:
+            hsm.to_code(self.fn[i])
+          except Exception:  # noqa  (a state without any callback yet)
+            pass
+        for (i, sg), cb in items[half:]:
+          hsm.register_signal_callback(self.fn[i], getattr(signals, sg), cb)
     return cbs
 
   def hand_text(self):
@@ -597,8 +611,10 @@ def run_chart(chart, ops):
       if instr:
         rec["rtc"] = list(hsm.rtc.spy)
         rec["full"] = list(hsm.full.spy)
-        rec["trc"] = [[t.start_state if t.start_state is not None else "", t.signal if t.signal is not None else "",
-                       t.end_state if t.end_state is not None else ""] for t in hsm.full.trace]
+        # (whatever the chart wrote into a record goes to the trace format as text: a status number where a state name belongs is
+        # judged by TLC as a wrong name, it does not break the recorder)
+        rec["trc"] = [[str(t.start_state) if t.start_state is not None else "", str(t.signal) if t.signal is not None else "",
+                       str(t.end_state) if t.end_state is not None else ""] for t in hsm.full.trace]
       else:
         rec["rtc"], rec["full"], rec["trc"] = [], [], []
       if queued:
